@@ -120,7 +120,12 @@ func optFields(w *W, h *astits.PESOptionalHeader) error {
 			w.Bytes(pd)
 		}
 		if h.HasPackHeaderField {
-			return fmt.Errorf("refts: pack header field is outside the modelled domain")
+			// pack_field_length, then pack_header() of that many bytes; the struct keeps the length only, the bytes written are
+			// a fixed pattern that is hostile to a parser which does not step over them (all flag and marker bits set)
+			w.U(uint64(h.PackField), 8)
+			for k := 0; k < int(h.PackField); k++ {
+				w.U(uint64(0xA5^byte(k*37)), 8)
+			}
 		}
 		if h.HasProgramPacketSequenceCounter {
 			w.Bit(true)
@@ -300,7 +305,8 @@ func DecodePES(b []byte) (*astits.PESData, error) {
 			o.PrivateData = f.Take(16)
 		}
 		if o.HasPackHeaderField {
-			return nil, fmt.Errorf("refts: pack header field is outside the modelled domain")
+			o.PackField = uint8(f.U(8))
+			f.Take(int(o.PackField))
 		}
 		if o.HasProgramPacketSequenceCounter {
 			f.Skip(1)
